@@ -13,29 +13,11 @@ extern crate rustc_hash;
 #[path = "../../spec/lib/prelude.rs"] pub mod prelude;
 #[path = "../../spec/lib/wgpu_shim.rs"] pub mod wgpu;
 use prelude::*;
+#[path = "../../spec/lib/model_stages.rs"] pub mod model_stages;
+use model_stages::*;
 
 verus! {
 
-pub open spec fn stmt_call(s: &naga::Statement, c: int) -> bool {
-    match s { naga::Statement::Call { function, .. } => handle_index(*function) == c, _ => false }
-}
-pub open spec fn stmt_at(b: &naga::Block, i: int) -> naga::Statement { block_stmts(b)[i] }
-pub open spec fn nsub(b: &naga::Block, i: int) -> int { sub_blocks(&block_stmts(b)[i]).len() as int }
-pub open spec fn subblk(b: &naga::Block, i: int, k: int) -> naga::Block { sub_blocks(&block_stmts(b)[i])[k] }
-
-pub open spec fn block_calls(b: &naga::Block, c: int) -> bool
-    decreases block_height(b)
-{
-    ||| exists|i: int| 0 <= i < block_stmts(b).len() && stmt_call(&#[trigger] stmt_at(b, i), c)
-    ||| exists|i: int, k: int| 0 <= i < block_stmts(b).len() && 0 <= k < nsub(b, i)
-            && block_height(&#[trigger] subblk(b, i, k)) < block_height(b) && block_calls(&subblk(b, i, k), c)
-}
-pub open spec fn calls_sub(b: &naga::Block, i: int, k: int, c: int) -> bool {
-    0 <= i < block_stmts(b).len() && 0 <= k < nsub(b, i) && block_calls(&subblk(b, i, k), c)
-}
-pub open spec fn calls_at(b: &naga::Block, i: int, c: int) -> bool {
-    0 <= i < block_stmts(b).len() && (stmt_call(&stmt_at(b, i), c) || exists|k: int| #[trigger] calls_sub(b, i, k, c))
-}
 pub proof fn lemma_block_calls(b: &naga::Block, c: int)
     ensures block_calls(b, c) <==> exists|i: int| #[trigger] calls_at(b, i, c),
 {
@@ -61,72 +43,6 @@ pub proof fn lemma_block_calls(b: &naga::Block, c: int)
     }
 }
 
-// ---------------- functions ----------------
-pub open spec fn nfun(m: &naga::Module) -> int { arena_seq(&m.functions).len() as int }
-pub open spec fn fun(m: &naga::Module, i: int) -> naga::Function { arena_seq(&m.functions)[i] }
-pub open spec fn nglob(m: &naga::Module) -> int { arena_seq(&m.global_variables).len() as int }
-pub open spec fn gname(m: &naga::Module, g: int) -> Option<String> { arena_seq(&m.global_variables)[g].name }
-pub open spec fn exprs(f: &naga::Function) -> Seq<naga::Expression> { arena_seq(&f.expressions) }
-
-pub open spec fn expr_call(e: &naga::Expression, c: int) -> bool {
-    match e { naga::Expression::CallResult(f) => handle_index(*f) == c, _ => false }
-}
-pub open spec fn expr_global(e: &naga::Expression, g: int) -> bool {
-    match e { naga::Expression::GlobalVariable(h) => handle_index(*h) == g, _ => false }
-}
-pub open spec fn fn_calls(f: &naga::Function, c: int) -> bool {
-    block_calls(&f.body, c) || exists|i: int| 0 <= i < exprs(f).len() && #[trigger] expr_call(&exprs(f)[i], c)
-}
-pub open spec fn fn_uses(f: &naga::Function, g: int) -> bool {
-    exists|i: int| 0 <= i < exprs(f).len() && #[trigger] expr_global(&exprs(f)[i], g)
-}
-pub open spec fn reach_idx(m: &naga::Module, i: int, g: int) -> bool
-    decreases i
-{
-    0 <= i < nfun(m) && (fn_uses(&fun(m, i), g)
-        || exists|c: int| 0 <= c < i && #[trigger] fn_calls(&fun(m, i), c) && reach_idx(m, c, g))
-}
-pub open spec fn reach_top(m: &naga::Module, f: &naga::Function, g: int) -> bool {
-    fn_uses(f, g) || exists|c: int| 0 <= c < nfun(m) && #[trigger] fn_calls(f, c) && reach_idx(m, c, g)
-}
-pub open spec fn desc_idx(m: &naga::Module, i: int, d: int) -> bool
-    decreases i
-{
-    0 <= i < nfun(m) && exists|c: int| 0 <= c < i && #[trigger] fn_calls(&fun(m, i), c) && (c == d || desc_idx(m, c, d))
-}
-
-pub open spec fn fn_ok(m: &naga::Module, f: &naga::Function, bound: int) -> bool {
-    &&& forall|c: int| #[trigger] fn_calls(f, c) ==> 0 <= c < bound
-    &&& forall|g: int| #[trigger] fn_uses(f, g) ==> 0 <= g < nglob(m)
-}
-pub open spec fn wf(m: &naga::Module) -> bool {
-    &&& forall|i: int| 0 <= i < nfun(m) ==> #[trigger] fn_ok(m, &fun(m, i), i)
-}
-
-// ---------------- entry points ----------------
-pub open spec fn stage_bit(s: naga::ShaderStage) -> u32 {
-    match s { naga::ShaderStage::Vertex => 1u32, naga::ShaderStage::Fragment => 2u32, naga::ShaderStage::Compute => 4u32 }
-}
-pub open spec fn stage_of(s: naga::ShaderStage) -> wgpu::ShaderStages { wgpu::ShaderStages { bits: stage_bit(s) } }
-// entry point functions live outside the functions arena; they may call any arena function
-pub open spec fn wf_entries(m: &naga::Module) -> bool {
-    forall|j: int| 0 <= j < m.entry_points@.len() ==> fn_ok(m, &(#[trigger] m.entry_points@[j]).function, nfun(m))
-}
-// completeness of the stage map after the first n entry points
-pub open spec fn gss_complete(m: &naga::Module, gs: Map<String, wgpu::ShaderStages>, n: int) -> bool {
-    forall|j: int, g: int| 0 <= j < n && #[trigger] reach_top(m, &m.entry_points@[j].function, g) && gname(m, g) is Some
-        ==> has(gs, gname(m, g)->0, stage_of(m.entry_points@[j].stage))
-}
-
-// exactness of the stage map after the first k entry points: every stage bit of every key is owed to an entry point
-// of that stage that reaches a global of that name; and no key is empty
-pub open spec fn is_stage_bit(b: u32) -> bool { b == 1 || b == 2 || b == 4 }
-pub open spec fn has_bit(gs: Map<String, wgpu::ShaderStages>, n: String, b: u32) -> bool { gs.contains_key(n) && is_stage_bit(b) && gs[n].bits & b == b }
-pub open spec fn touched_by_entry(m: &naga::Module, j: int, n: String) -> bool { touched_fn(m, m.entry_points@[j].function)(n) }
-pub open spec fn gss_exact(m: &naga::Module, gs: Map<String, wgpu::ShaderStages>, k: int) -> bool {
-    &&& forall|n: String, b: u32| #[trigger] has_bit(gs, n, b) ==> exists|j: int| 0 <= j < k && stage_bit(m.entry_points@[j].stage) == b && #[trigger] touched_by_entry(m, j, n)
-    &&& forall|n: String| #[trigger] gs.contains_key(n) ==> gs[n].bits != 0
-}
 pub proof fn lemma_exact_step(m: &naga::Module, gs1: Map<String, wgpu::ShaderStages>, gs2: Map<String, wgpu::ShaderStages>, k: int)
     requires 0 <= k < m.entry_points@.len(), gss_exact(m, gs1, k),
         sound(gs1, gs2, stage_of(m.entry_points@[k].stage), touched_fn(m, m.entry_points@[k].function)),
@@ -163,18 +79,13 @@ pub proof fn lemma_exact_step(m: &naga::Module, gs1: Map<String, wgpu::ShaderSta
 
 // ---------------- stage map ----------------
 // only the VERTEX | FRAGMENT | COMPUTE bits ever occur
-pub open spec fn bounded(gs: Map<String, wgpu::ShaderStages>) -> bool { forall|n: String| #[trigger] gs.contains_key(n) ==> gs[n].bits < 8 }
 pub proof fn lemma_bits8()
     ensures forall|a: u32, b: u32| a < 8 && b < 8 ==> #[trigger] (a | b) < 8,
 {
     assert(forall|a: u32, b: u32| a < 8 && b < 8 ==> #[trigger] (a | b) < 8) by(bit_vector);
 }
-pub open spec fn sub(a: u32, b: u32) -> bool { a & b == a }
-pub open spec fn has(gs: Map<String, wgpu::ShaderStages>, name: String, stage: wgpu::ShaderStages) -> bool {
-    gs.contains_key(name) && sub(stage.bits, gs[name].bits)
-}
 pub open spec fn mono(a: Map<String, wgpu::ShaderStages>, b: Map<String, wgpu::ShaderStages>) -> bool {
-    forall|n: String| #[trigger] a.contains_key(n) ==> b.contains_key(n) && sub(a[n].bits, b[n].bits)
+    forall|n: String| #[trigger] a.contains_key(n) ==> b.contains_key(n) && bits_sub(a[n].bits, b[n].bits)
 }
 pub open spec fn done(m: &naga::Module, gs: Map<String, wgpu::ShaderStages>, stage: wgpu::ShaderStages, i: int) -> bool {
     forall|g: int| #[trigger] reach_idx(m, i, g) && gname(m, g) is Some ==> has(gs, gname(m, g)->0, stage)
@@ -205,9 +116,9 @@ pub open spec fn callee_post(m: &naga::Module, c: int, v: Set<naga::Handle<naga:
 // ---------------- lemmas ----------------
 pub proof fn lemma_bits()
     ensures
-        forall|a: u32, b: u32| #[trigger] sub(a, a | b) && sub(b, a | b),
-        forall|a: u32| #[trigger] sub(a, a),
-        forall|a: u32, b: u32, c: u32| #[trigger] sub(a, b) && #[trigger] sub(b, c) ==> sub(a, c),
+        forall|a: u32, b: u32| #[trigger] bits_sub(a, a | b) && bits_sub(b, a | b),
+        forall|a: u32| #[trigger] bits_sub(a, a),
+        forall|a: u32, b: u32, c: u32| #[trigger] bits_sub(a, b) && #[trigger] bits_sub(b, c) ==> bits_sub(a, c),
         forall|b: u32| (0u32 | b) == b,
 {
     assert(forall|a: u32, b: u32| (a & (a | b)) == a && (b & (a | b)) == b) by(bit_vector);
@@ -239,7 +150,7 @@ pub proof fn lemma_mono_trans(a: Map<String, wgpu::ShaderStages>, b: Map<String,
     ensures mono(a, c),
 {
     lemma_bits();
-    assert forall|n: String| #[trigger] a.contains_key(n) implies c.contains_key(n) && sub(a[n].bits, c[n].bits) by {
+    assert forall|n: String| #[trigger] a.contains_key(n) implies c.contains_key(n) && bits_sub(a[n].bits, c[n].bits) by {
         assert(b.contains_key(n));
     }
 }
@@ -427,20 +338,6 @@ pub proof fn lemma_stmt_step(m: &naga::Module, b: &naga::Block, j: int,
 }
 
 
-
-// ---------------- exactness: no unused stage is ever added ----------------
-pub open spec fn old_bits(gs: Map<String, wgpu::ShaderStages>, n: String) -> u32 { if gs.contains_key(n) { gs[n].bits } else { 0 } }
-// every key of `b` is either unchanged from `a`, or is TOUCHED (names a global the walked code reaches) and got exactly `stage` added
-pub open spec fn sound(a: Map<String, wgpu::ShaderStages>, b: Map<String, wgpu::ShaderStages>, stage: wgpu::ShaderStages, t: spec_fn(String) -> bool) -> bool {
-    forall|n: String| #[trigger] b.contains_key(n) ==>
-        (a.contains_key(n) && b[n].bits == a[n].bits) || (t(n) && b[n].bits == old_bits(a, n) | stage.bits)
-}
-pub open spec fn touched_fn(m: &naga::Module, f: naga::Function) -> spec_fn(String) -> bool {
-    |n: String| exists|g: int| #[trigger] reach_top(m, &f, g) && gname(m, g) == Some(n)
-}
-pub open spec fn touched_block(m: &naga::Module, b: naga::Block) -> spec_fn(String) -> bool {
-    |n: String| exists|c: int, g: int| #[trigger] block_calls(&b, c) && #[trigger] reach_idx(m, c, g) && gname(m, g) == Some(n)
-}
 pub proof fn lemma_sound_refl(a: Map<String, wgpu::ShaderStages>, stage: wgpu::ShaderStages, t: spec_fn(String) -> bool)
     ensures sound(a, a, stage, t),
 {}
@@ -527,7 +424,6 @@ fn naga_stages(stage: naga::ShaderStage) -> «(r:» wgpu::ShaderStages«)
 }
 //@end
 
-pub open spec fn entry_bits(es: Seq<naga::EntryPoint>) -> u32 decreases es.len() { if es.len() == 0 { 0 } else { entry_bits(es.drop_last()) | stage_bit(es.last().stage) } }
 pub proof fn lemma_entry_bits(es: Seq<naga::EntryPoint>, ss: Seq<wgpu::ShaderStages>)
     requires ss.len() == es.len(), forall|i: int| 0 <= i < es.len() ==> (#[trigger] ss[i]).bits == stage_bit(es[i].stage),
     ensures wgpu::or_all(ss) == entry_bits(es), entry_bits(es) < 8,
